@@ -649,7 +649,7 @@ func (e *Engine) verifyFunction(key string, extra *FuncSpec) (res *FuncResult) {
 		}
 	}()
 	spec := e.specFor(fn)
-	if extra != nil {
+	if extra != nil && extra != spec {
 		merged := *extra
 		if spec != nil {
 			merged.Requires = append(append([]Clause{}, spec.Requires...), extra.Requires...)
